@@ -19,6 +19,7 @@ DOC = {
         'C13.R2': 'rehash: drop(original tx) dominates the recv loop; tasks capture a Sender clone; the loop leaves only on Err(recv); every received item is added; the throttle guard is acquired before spawn and dropped inside the task',
         'C13.R3': 'no HashMap/HashSet/DashMap iteration reachable from group_files/write_report (named exceptions)',
         'C13.R4': 'each FilePos-FileLen / FileLen-FileLen is dominated by a comparison of the same operands or its right operand is clamped by min(_, left)',
+        'C13.R6': 'no child process shares the standard input or output of fclones (the list of paths of --stdin, the report): every Command created in the library gets an explicit stdin and stdout before it is spawned',
         'C13.R5': 'termination: the semaphore blocking the hashing tasks never loses a wake-up (re-evaluates C19.R1-R4)',
     },
     'not_decided': 'everything that depends on the actual interleaving; rayon and crossbeam internals; that different hash functions induce the same partition',
@@ -33,6 +34,7 @@ def run(ctx):
     r3(ctx)
     r4(ctx)
     r5(ctx)
+    r6(ctx)
     from .common import run_mandatory
     run_mandatory(ctx, 'C13')
     if ctx.tier == 'thorough' and not getattr(ctx, 'sibling', None):
@@ -352,3 +354,23 @@ def r5(ctx):
         o['detail'] = '[%s] %s' % (o['rule'], o['detail'])
         o['rule'] = 'C13.R5'
     ctx.rules_run.add('C13.R5')
+
+
+def r6(ctx):
+    rule = 'C13.R6'
+    lib = ctx.lib
+    n = 0
+    for b in lib.bodies.values():
+        if re.search(r'(^|::)tests?(::|$)', b.path) or b.kind in ('const', 'static', 'promoted'):
+            continue
+        for c in b.calls(r'^std::process::Command::new$'):
+            n += 1
+            fl = forward_locals(b, c.dest[0], through_calls=lambda k, ai: ai == 0 and k.matches(r'^std::process::Command::\w+$'))
+            have = set()
+            for k in b.calls(r'^std::process::Command::(stdin|stdout|stderr)$'):
+                if op_local(k.args[0]) in fl or c in backslice(b, [k.args[0]]).calls:
+                    have.add(k.path.rsplit('::', 1)[-1])
+            ctx.check({'stdin', 'stdout'} <= have, rule, '%s|child-streams' % b.path, c.where(), 'the child gets its own stdin and stdout (%s set)' % sorted(have),
+                      'the command created here is spawned with inherited %s: a filter program started as the start-up probe of --transform reads the input paths of `--stdin` before fclones does '
+                      '(files silently not scanned, different on every run) and copies them into the report on stdout' % sorted({'stdin', 'stdout'} - have))
+    ctx.floor(rule, 'Command::new sites in the library', n, 2)
